@@ -170,6 +170,16 @@ func (b *grpcBackend) remove(o *object) {
 	b.mu.Unlock()
 }
 
+func (b *grpcBackend) forget(hash string) {
+	b.mu.Lock()
+	delete(b.cas, hash)
+	delete(b.ac, hash)
+	delete(b.upRecs, hash)
+	delete(b.plans, hash)
+	delete(b.upPlans, hash)
+	b.mu.Unlock()
+}
+
 func (b *grpcBackend) holds(o *object) ([]byte, bool) {
 	b.mu.Lock()
 	defer b.mu.Unlock()
